@@ -38,6 +38,7 @@ EXPLANATION += (' R-C19-4: an attribute that several methods set to different va
 EXPLANATION += (' R-C19-5: Meshmapper.process addresses source and target points with the same complete coordinate key list of the mesh; a list cut by the data-dependent `dimensions` property is a violation.')
 EXPLANATION += (" R-C19-8: the frame whose columns the Gradient3D workers address by position is the projection self._obj[['x','y','z',value]] by name.")
 EXPLANATION += (" R-C19-6: the gradient module contains no comparison against an absolute numeric tolerance (float literal in a comparison, isclose/allclose): the operators are homogeneous in the length unit. R-C19-7: no frame whose index level order was fixed by the code (reorder_levels with literal names / swaplevel, followed through locals and helper methods) is re-indexed with the caller's index, because pandas aligns MultiIndex tuples by position.")
+EXPLANATION += (" R-C19-9 (shared state-family rules, sa/statefam.py): no mesh accessor memoises a value computed from a call's argument under a test that inspects only a part of that argument (index, shape, length, identity), changes a mutable class attribute through an instance, or hands out a memoised object.")
 ASSUMPTIONS = [
     "pandas .loc/.isin/get_indexer are label based, numpy subscripts and .iloc are positional",
     "np.linalg.inv returns the inverse (non-degenerate element)",
@@ -243,6 +244,18 @@ def run(ctx):
     ctx.attempt(_r6_scale)
     ctx.attempt(_r7_level_order)
     ctx.attempt(_r8_column_layout)
+    ctx.attempt(_r9_state)
+
+
+def _r9_state(ctx):
+    """R-C19-9 (state families, sa/statefam.py): the mesh accessors keep nothing computed from one call's argument for the next call
+    under a test that looks at a part of that argument only (a triangulation of the source mesh re-used because the INDEX of the
+    next source equals the cached one, while its coordinates differ), share no class-level mutable state and hand out no memoised
+    object."""
+    from .. import statefam
+    prog = ctx.prog
+    classes = [ci for k, ci in sorted(prog.classes.items()) if ci.module.name.startswith('pylife.mesh.')]
+    statefam.apply(ctx, 'R-C19-9', 'no partially keyed memo / shared class-level state in the mesh accessors', classes=classes, floor=4)
 
 
 MESH_MODS = ("pylife.mesh.gradient", "pylife.mesh.surface", "pylife.mesh.hotspot", "pylife.mesh.meshsignal")
